@@ -2,6 +2,7 @@ import ZV.Model.C02
 import ZV.Model.C02Names
 import ZV.Model.C02Views
 import ZV.Model.C09
+import ZV.Model.C02Cert
 /-! line protocol for C02:
     pol <0|1> <spec>   spec = policies separated by `|`, notices by `.`, notice ∈ {t, r, tr, n}, `-` = no notice
     names <hex,hex,…|->
@@ -101,6 +102,30 @@ def handleViews (args : List String) : String :=
     | _, _ => "bad-op"
   | _ => "bad-op"
 
+def parseCivil (s : String) : Option Int :=
+  match (s.splitOn "-").mapM (·.toNat?) with
+  | some [y, mo, d, h, mi, sec] =>
+    some (ZV.Time.toUnix { year := y, month := mo, day := d, hour := h, min := mi, sec := sec, off := 0 })
+  | _ => none
+
+def handleCert (args : List String) : Option String :=
+  match args with
+  | ["cf", _, der, tbs, spki, subj, serial, nb, na] =>
+    match ofHex der, ofHex tbs, ofHex spki, ofHex subj, ofHex serial, parseCivil nb, parseCivil na with
+    | some der, some tbs, some spki, some subj, some serial, some nb, some na =>
+      let f := fingerprints der tbs spki subj
+      some ("len=" ++ decimal (validityLengthJSON nb na) ++ " vp=" ++ decimal (validityLength nb na) ++ " serial=" ++ serialString serial ++ " md5=" ++ toHex f.md5 ++
+        " sha1=" ++ toHex f.sha1 ++ " sha256=" ++ toHex f.sha256 ++ " spki=" ++ toHex f.spki ++ " tbs=" ++ toHex f.tbs ++
+        " ss=" ++ toHex f.spkiSubject)
+    | _, _, _, _, _, _, _ => some "bad-op"
+  | ["rk", _, n, e] =>
+    match ofHex n, ofHex e with
+    | some n, some e =>
+      let v := rsaKeyView (intOfBytes n) (intOfBytes e)
+      some ("mod=" ++ toHex v.1 ++ " e=" ++ decimal v.2.1 ++ " len=" ++ toString v.2.2)
+    | _, _ => some "bad-op"
+  | _ => none
+
 def handle (args : List String) : String :=
   match args with
   | ["pol", cps, spec] =>
@@ -128,6 +153,8 @@ def handle (args : List String) : String :=
         | .err => "err"
         | .panic => "panic"))
     | _, _, _ => "bad-op"
-  | _ => handleViews args
+  | _ => match handleCert args with
+    | some r => r
+    | none => handleViews args
 
 end ZV.C02
